@@ -988,6 +988,20 @@ func runCliArgs(c *Ctx) {
 	add("var", []string{"var", "X=v", "ignored"}, 2)
 	add("var", []string{"var", "X=a<no value>b"}, -1)
 	add("fwd", []string{"fwd", "{{.Y}}", "it's"}, 1)
+	// --init corpus: no argument, directory, file, extension only, existing file, after `--`
+	for _, ic := range []struct {
+		tree []string
+		argv []string
+		dash int
+	}{
+		{nil, nil, -1}, {[]string{"f:w/Taskfile.yml"}, nil, -1}, {[]string{"d:w/sub"}, []string{"sub"}, -1},
+		{nil, []string{"custom.yml"}, -1}, {nil, []string{".yaml"}, -1}, {[]string{"f:w/exist.yml"}, []string{"exist.yml"}, -1},
+		{[]string{"d:w/sub"}, []string{"sub/new.yml", "other.yml"}, -1}, {nil, []string{"x.yml"}, 0}, {nil, []string{"missing/x.yml"}, -1},
+		{[]string{"d:other"}, []string{"{ROOT}/other/abs.yml"}, -1},
+	} {
+		cases = append(cases, &cliCase{Kind: "init", Flag: "--init", Tree: ic.tree, Argv: hexAll(ic.argv), Dash: ic.dash})
+	}
+	nCorpus := len(cases)
 	nf := c.Pick(500, 4000)
 	for i := 0; i < nf; i++ {
 		k := c.Rng.Intn(6)
@@ -1042,6 +1056,10 @@ func runCliArgs(c *Ctx) {
 	for i := 0; i < ni; i++ {
 		cases = append(cases, c.genInit())
 	}
+	// mix the streams (after the fixed corpus) so that the first reported disagreements
+	// are of different kinds
+	mixed := cases[nCorpus:]
+	c.Rng.Shuffle(len(mixed), func(i, j int) { mixed[i], mixed[j] = mixed[j], mixed[i] })
 	// evaluate in parallel (the CLI runs dominate), emit in generation order
 	type res struct{ cl, il string }
 	out := make([]res, len(cases))
